@@ -5,9 +5,9 @@ from vlib.props import C15, C11
 LEVEL = "proof"
 MANIFEST = dict(
     category="proof",
-    text="Part 1 (loaders): the OPNI loader contract and the bank loader's loop-head segments of the real wopn_file.c are discharged with NO well-formedness assumption on the block (any bytes, any length, mem object of exactly `length` bytes): every read is inside the block, the result is a defined error code or a well-formed file. Part 2: the converters copy every field. Part 3 (playable): contracts on the real OPN2::noteOn/noteOff (extracted) hold for EVERY double tone and every cached instrument: the call returns (unwinding assertions on both halving loops cover all doubles) and writes only registers of its own channel; touchNote/range: see C11.",
+    text="Part 1 (loaders): the OPNI loader contract and the bank loader's loop-head segments of the real wopn_file.c are discharged with NO well-formedness assumption on the block (any bytes, any length, mem object of exactly `length` bytes): every read is inside the block, the result is a defined error code or a well-formed file. Part 2: the converters copy every field. Part 3 (playable): contracts on the real OPN2::noteOn/noteOff (extracted) hold for EVERY double tone and every cached instrument; OPN2::setPatch uploads exactly the 30 registers of the given timbre to its own channel and caches it; OPN2::setPan writes one pan value and B4 of its own channel: the call returns (unwinding assertions on both halving loops cover all doubles) and writes only registers of its own channel; touchNote/range: see C11.",
     design_ref="DESIGN.md C02",
-    level_note="Shares the loader groups with C15 (same bounds: bank index < 64 in the two data-moving segment families; WOPN_Init contract assumed). exp() is replaced by a contract that may return ANY double. setPatch/setPan and the path from realTime_NoteOn to noteOn (the tone argument) are covered under C03/C12 where built.",
+    level_note="Shares the loader groups with C15 (same bounds: bank index < 64 in the two data-moving segment families; WOPN_Init contract assumed). exp() is replaced by a contract that may return ANY double. setPatch and setPan are under contract here (register-exact). The path from realTime_NoteOn to noteOn (the tone argument through noteUpdate) is not covered.",
     technique="CBMC code contracts (DFCC) and loop-head cut-point segments on the in-place C source; contracts on mechanically extracted C++ member functions")
 TRUSTED = list(C15.TRUSTED) + ["extraction rules of vlib/cxx2c.py", "harness/env_opn2.h register tap", "exp(): contract returning any double"]
 ASSUMPTIONS = []
@@ -16,6 +16,20 @@ ASSUMPTIONS = []
 def _x_noteon(wd):
     return C11.extract_opn2(wd, [("OPN2::noteOn", dict(must=["R10", "R3"], post=[(r"s_commonFreq\(", "s_commonFreq_(")])),
                                   ("OPN2::noteOff", dict())], )
+
+
+def _x_cvt(wd):
+    from vlib import extract_play
+    C = "src/opnmidi_cvt.hpp"
+    specs = []
+    for fn, t in (("cvt_generic_to_FMIns", "WOPNInstrument"), ("cvt_generic_to_FMIns", "OPN2_Instrument"), ("cvt_FMIns_to_generic", "OPN2_Instrument")):
+        specs.append(dict(file=C, name=fn, cls=None, rename="%s_%s" % (fn, t), static=True, must=["R4"],
+                          sig_post=[(r"\bWOPNI\b", t)], post=[(r"\bins\.op\[1\] = ins\.op\[0\];", "ins.op[1] = ins.op[0];")] if fn == "cvt_generic_to_FMIns" else ()))
+    return extract_play.emit(wd, specs)
+
+
+def _x_patch(wd):
+    return C11.extract_opn2(wd, [("OPN2::setPatch", dict(must=["R10", "R4"])), ("OPN2::setPan", dict(must=["R10", "R3"]))])
 
 
 def groups(tier):
@@ -28,4 +42,15 @@ def groups(tier):
                     note="every double tone; both halving loops carry loop contracts (invariant: finite, non-negative, bounded; variants: the octave counter and the integer part of the frequency) = termination for all inputs, no unwinding bound"))
     gs.append(Group("noteOff_contract", "harness/opn2_h.c", "h_noteOff", enforce="noteOff", extract=_x_noteon, required=[r"postcondition"], object_bits=9,
                     funcs=["OPN2::noteOff"]))
+    CV = ["cvt_generic_to_FMIns_WOPNInstrument", "cvt_generic_to_FMIns_OPN2_Instrument", "cvt_FMIns_to_generic_OPN2_Instrument"]
+    for h, f in (("h_to_FMIns_WOPN", CV[0]), ("h_to_FMIns_OPNI", CV[1]), ("h_from_FMIns_OPNI", CV[2])):
+        gs.append(Group("cvt_" + f, "harness/cvt_h.c", h, enforce=f, extract=_x_cvt, required=[r"postcondition", r"assigns"], unwind=40,
+                        funcs=[f.replace("_WOPNInstrument", "<WOPNInstrument>").replace("_OPN2_Instrument", "<OPN2_Instrument>")], includes=["src"]))
+    gs.append(Group("cvt_opni_write_read_back_lemma", "harness/cvt_h.c", "h_opni_write_read_back", replace=CV[1:], extract=_x_cvt, required=[r"READBACK"], unwind=40,
+                    funcs=CV[1:], note="lemma over the two converter contracts (both calls replaced)"))
+    gs.append(Group("setPatch_contract", "harness/opn2_h.c", "h_setPatch", enforce="setPatch", extract=_x_patch, object_bits=9,
+                    unwindset="spec_setpatch_writes.0:8,spec_setpatch_writes.1:8,setPatch.0:8,setPatch.1:8", required=[r"postcondition", r"assigns", r"TAP chip index"], timeout=600,
+                    funcs=["OPN2::setPatch"]))
+    gs.append(Group("setPan_contract", "harness/opn2_h.c", "h_setPan", enforce="setPan", extract=_x_patch, object_bits=9,
+                    required=[r"postcondition", r"assigns", r"TAP chip index"], timeout=600, funcs=["OPN2::setPan", "OPN2::writePan"]))
     return gs
